@@ -18,6 +18,7 @@ RULE = (
     "changed at least one link, or raised after at least one hook had run. Enumerated cases distinct by construction; histories hashed."
     ' Also (rounds 8-9): hooks that evict/re-file nodes or re-home the receiving node, hooks that read the whole forest, vetoes as AssertionError/TreeError/KeyError subclasses.'
     " Also: read-free histories over mixed NodeMixin/LightNodeMixin universes; hooks editing the caller's own list, returning False, raising StopIteration-style vetoes."
+    ' Rounds 11-14: classes storing attributes outside the instance dict or storing copies, sealed/arming/cooperative hook classes, refile hooks (N = 4).'
 )
 ASSUMPTIONS = [
     "the invariant is evaluated through the public .parent/.children of every object reachable from the universe",
